@@ -36,6 +36,89 @@ theorem sched_inv (h : List (Op Int)) (hin : InScope h) :
   have := simQ_inv (reachable_sim h hin).q
   exact ⟨this.runqNodup, this.timerqNodup, this.disjoint, this.sorted⟩
 
+/-! ## the atomic run queue never holds more than its 8 slots (every history, in scope or not)
+
+This is what makes "list of committed entries" a sound stand-in for the 8-deep `messageq_t`. -/
+
+theorem frame_fibreTimeout_atomq (k : K) (c : Fid) (d : BitVec 32) : (fibreTimeout k c d).1.atomq = k.atomq := by
+  unfold fibreTimeout
+  split
+  · rfl
+  · dsimp only; split <;> rfl
+
+theorem runScript_atomq_bounded (c : Fid) : ∀ (s : List (Call (BitVec 32))) (k : K), k.atomq.length ≤ 8 →
+    (runScript c k s).1.atomq.length ≤ 8
+  | [], _, h => h
+  | .run g :: r, k, _ => by
+    simp only [runScript]
+    exact runScript_atomq_bounded c r _ (by rw [(frame_fibreRun k g).2]; exact Nat.zero_le _)
+  | .runAtomic g :: r, k, h => by
+    simp only [runScript]
+    apply runScript_atomq_bounded c r
+    unfold fibreRunAtomic
+    split
+    · show (k.atomq ++ [g]).length ≤ 8
+      rw [List.length_append, List.length_singleton]; omega
+    · exact h
+  | .kill g :: r, k, _ => by
+    simp only [runScript]
+    apply runScript_atomq_bounded c r
+    show (handleAtomic k).atomq.length ≤ 8
+    rw [(frame_handleAtomic k).2]; exact Nat.zero_le _
+  | .timeout d :: r, k, h => by
+    simp only [runScript]
+    exact runScript_atomq_bounded c r _ (by rw [frame_fibreTimeout_atomq]; exact h)
+  | .setPriv l :: r, k, h => by
+    simp only [runScript]
+    exact runScript_atomq_bounded c r _ h
+
+theorem beforePop_atomq (k : K) : (beforePop k).atomq = [] := by
+  unfold beforePop
+  rw [(frame_handleTimerq _).2]
+  cases (handleAtomic k).current with
+  | none => exact (frame_handleAtomic k).2
+  | some c =>
+    dsimp only
+    unfold updateCurrent
+    split
+    · exact (frame_fibreRun _ c).2
+    · exact (frame_handleAtomic k).2
+    · exact (frame_handleAtomic k).2
+    · exact (frame_handleAtomic k).2
+
+theorem step_atomq_bounded (k : K) (op : Op (BitVec 32)) (h : k.atomq.length ≤ 8) :
+    (Model.Fibre.step k op).1.atomq.length ≤ 8 := by
+  cases op with
+  | run f => show (fibreRun k f).atomq.length ≤ 8; rw [(frame_fibreRun k f).2]; exact Nat.zero_le _
+  | runAtomic f =>
+    show (fibreRunAtomic k f).1.atomq.length ≤ 8
+    unfold fibreRunAtomic
+    split
+    · show (k.atomq ++ [f]).length ≤ 8
+      rw [List.length_append, List.length_singleton]; omega
+    · exact h
+  | kill f => show (handleAtomic k).atomq.length ≤ 8; rw [(frame_handleAtomic k).2]; exact Nat.zero_le _
+  | next t s r =>
+    have hp : (prelude { k with now := t }).atomq.length ≤ 8 := by
+      rw [prelude_eq]
+      split
+      · rw [(frame_getNextTask _).2.2.2.2.1, beforePop_atomq]; exact Nat.zero_le _
+      · exact h
+    show (schedulerNext k t s r).1.atomq.length ≤ 8
+    unfold schedulerNext
+    dsimp only
+    split
+    · exact runScript_atomq_bounded _ s _ hp
+    · exact hp
+
+/-- **at most 8 accepted requests are ever outstanding**, for every history -/
+theorem atomq_bounded : ∀ (h : List (Op (BitVec 32))) (k : K), k.atomq.length ≤ 8 →
+    (Model.Fibre.runFrom k h).1.atomq.length ≤ 8
+  | [], _, hk => hk
+  | op :: h, k, hk => by
+    simp only [Model.Fibre.runFrom]
+    exact atomq_bounded h _ (step_atomq_bounded k op hk)
+
 /-! ## the clauses of the property -/
 
 /-- **each pass dispatches at most one fibre: the head of the FIFO run queue** after the intake (accepted atomic
